@@ -34,6 +34,9 @@ BackList(bs) ==
     [] bs = "two"      -> <<Backend("rust", Pro(1), NoText), Backend("rust", Pro(2), Epi(2))>>
     [] bs = "mixed"    -> <<Backend("cpp", "pub const CPP_1: u32 = 1;", "pub const CPP_END: u32 = 2;"), Backend("rust", Pro(1), Epi(1)),
                             Backend("cpp", "pub const CPP_2: u32 = 3;", NoText)>>
+    (* rust blocks separated by a block of another backend: all of them count, in source order *)
+    [] bs = "split"    -> <<Backend("rust", Pro(1), Epi(1)), Backend("cpp", "pub const CPP_4: u32 = 5;", NoText),
+                            Backend("rust", Pro(2), Epi(2))>>
     [] bs = "comment"  -> <<Backend("rust", ProComment, Epi(1))>>
     [] OTHER           -> <<Backend("cpp", "pub const CPP_3: u32 = 4;", NoText)>>
 
@@ -50,7 +53,9 @@ ModA(bs, col) ==
 
 ModB == [Module(<<"a", "b">>, <<<<"a", "P">>>>, <<Q, TypeDef("R", "pub", <<Field("p", "pub", <<>>, TNm("P"), None, FALSE)>>)>>)
            EXCEPT !.backs = <<Backend("rust", NoText, Epi(3))>>]
-ModC == Module(<<"c">>, <<>>, <<TypeDef("S", "pub", <<>>)>>)
+(* W declares an empty vftable block: it still gets its (empty) WVftable struct *)
+ModC == Module(<<"c">>, <<>>, <<TypeDef("S", "pub", <<>>),
+                                 [TypeDef("W", "pub", <<Field("k", "pub", <<>>, TNm("u32"), None, FALSE)>>) EXCEPT !.vft = Vft(None, <<>>)]>>)
 ModEmpty == [Module(<<"e">>, <<>>, <<>>) EXCEPT !.backs = <<Backend("rust", Pro(4), NoText)>>]
 ModBare == Module(<<"d", "bare">>, <<>>, <<>>)
 (* a file name with a dot in its stem: c.v1.pyxis is module `c.v1`, next to module `c` *)
@@ -58,9 +63,13 @@ ModDot == Module(<<"c.v1">>, <<>>, <<TypeDef("SV", "pub", <<>>)>>)
 ModDotDir == Module(<<"c.v1", "sub">>, <<>>, <<TypeDef("SD", "pub", <<>>)>>)
 ModPlainDir == Module(<<"c", "sub">>, <<>>, <<TypeDef("SP", "pub", <<>>)>>)
 
+(* sub-directories named like the input directory itself (`input`, or `types` for the build-script entry) *)
+ModSame(d) == Module(<<d, "c">>, <<>>, <<TypeDef("Inner", "pub", <<Field("i", "pub", <<>>, TNm("u64"), None, FALSE)>>)>>)
+
 MkInput(ptr, tree, bs, col, indir) ==
   [ptr |-> ptr, indir |-> indir,
    mods |-> CASE tree = "flat"   -> <<ModA(bs, col)>>
+              [] tree = "samename" -> <<ModC, ModSame("input"), ModSame("types"), ModA(bs, col)>>
               [] tree = "nested" -> <<ModA(bs, col), ModB>>
               [] tree = "three"  -> <<ModC, ModA(bs, col), ModB>>
               [] tree = "dotted" -> <<ModC, ModDot, ModDotDir, ModPlainDir, ModA(bs, col)>>
